@@ -169,7 +169,8 @@ class TopGen:
                     if typ in used: continue
                     used.add(typ); y = r.random()
                     if y < 0.35:
-                        ents.append(("plain", typ, "Ext_" + typ)); s += "  %s: Ext_%s\n" % (typ, typ)
+                        tgt = "Ext_" + typ if r.random() < 0.7 else "Ext_shared"      # two entries may name the same script
+                        ents.append(("plain", typ, tgt)); s += "  %s: %s\n" % (typ, tgt)
                     elif y < 0.7:
                         owner = "%s_%s" % (name, typ); _, _, body, labels = self.script(name=owner)
                         ents.append(("inline", typ, owner, body, labels)); s += "  %s {\n%s  }\n" % (typ, p_block(body, 2))
@@ -247,6 +248,15 @@ def gen_C04(rnd, n, tier):
     for src in F23_SRCS:
         tg = TopGen(rnd, tier); cfg = base_cfg()
         out.append(Case(compile_line(cfg, src), src, cfg, {"top": tg}))
+    # a selected poryswitch case may end in `continue` / `break`: what follows the poryswitch in the
+    # loop body (labels included) is still emitted
+    for k in range(12):
+        kw = rnd.choice(["continue", "break", "continue", "end", "return"]); sel = rnd.choice(["ZZ", "A"])
+        loop = rnd.choice(["while (var(VAR_S) < 10) {", "do {", "while {"]); close = "} while (flag(FLAG_Q))" if loop == "do {" else "}"
+        src = ("script Patrol%d {\n  %s\n    addvar(VAR_S, 1)\n    poryswitch(V) { %s { %s } _ { special(Check) } }\n  ReportIn%d:\n    msgbox(\"Nothing\")\n  %s\n  release\n}\n"
+               "script Captain%d {\n  lock\n  goto(ReportIn%d)\n}\n") % (k, loop, sel, kw, k, close, k, k)
+        cfg = base_cfg(switches={"V": "ZZ"}, optimize=rnd.random() < 0.5)
+        out.append(Case(compile_line(cfg, src), src, cfg, {"top": TopGen(rnd, tier), "must_define": "ReportIn%d" % k}))
     return out
 
 LABEL_DEF = re.compile(r"^([^\s:]+)(::?)$")
@@ -259,6 +269,10 @@ def asm_labels(text):
     return defs
 
 def oracle_C04(case, res):
+    if "must_define" in case.meta:
+        if res["kind"] != "OK": return "valid program rejected: %s" % res.get("msg")
+        n = res["text"].split("\n").count(case.meta["must_define"] + ":")
+        if n != 1: return "label %s written in the script is defined %d times in the output" % (case.meta["must_define"], n)
     if res["kind"] != "OK": return None       # rejection of a generated program is C20/C18 business
     text = res["text"]; tg = case.meta["top"]
     defs = asm_labels(text)
@@ -543,13 +557,13 @@ def oracle_C09(case, res):
     return None
 
 # ---------------- C10 ----------------
-ARG_ATOMS = ["VAR_A", "7", "-3", "0x1F", "FLAG_X", "+", "|", "TRUE", "var", "if", "*", "=", "0x1f", "0xdeadBEEF", "0xa", "VAR_0x8004", "global", "local", "<=", "[", "]", "{", "}", ":", "!"]
+ARG_ATOMS = ["VAR_A", "7", "-3", "0x1F", "FLAG_X", "+", "|", "TRUE", "var", "if", "*", "=", "0x1f", "0xdeadBEEF", "0xa", "VAR_0x8004", "global", "local", "%", "<=", "[", "]", "{", "}", ":", "!"]
 def gen_arg(rnd, depth=0):
     n = rnd.randint(1, 3); toks = []
     for _ in range(n):
         if depth < 2 and rnd.random() < 0.2:
             inner = gen_arg(rnd, depth + 1); toks += ["("] + inner + [")"]
-        else: toks.append(rnd.choice(ARG_ATOMS[:18]))
+        else: toks.append(rnd.choice(ARG_ATOMS[:19]))
     return toks
 
 F21_SRC = 'script S {\n  mixarg(FOO "a")\n  mixarg("a" ascii"b", 1)\n}\n'
@@ -879,6 +893,8 @@ class Pory:
         if x < 0.7:
             b, bs = s.stmt_item(depth + 1)
             return ("if (flag(F)) { %s }" % b, lambda sw, bs=bs: (None if bs(sw) is None else "if (flag(F)) { %s }" % bs(sw)))
+        if x < 0.78:
+            s.ncmd += 1; t = "PL%d:" % s.ncmd; return (t, lambda sw, t=t: t)       # a label statement (also as the only statement of a case)
         s.ncmd += 1; t = "c%d(x, 1)" % s.ncmd; return (t, lambda sw, t=t: t)
     def move_item(s, depth):
         r = s.r
@@ -983,6 +999,10 @@ def gen_C13(rnd, n, tier):
             lambda: "if (random(%s) == %s) { r }" % (u(), u()),
             lambda: "applymovement(%s, moves(walk_up))" % u(),
             lambda: "foo((%s + 2) * %s)" % (u(), u()),
+            lambda: "if (flag(FLAG_BASE + %s)) { a }" % u(),
+            lambda: "if (var(VAR_BASE + %s) == %s) { a }" % (u(), u()),
+            lambda: "if (!defeated(%s + 1) || flag(%s - BASE)) { a }" % (u(), u()),
+            lambda: "switch (var(VAR_BASE + %s)) { case %s + 1: x }" % (u(), u()),
             # case values that coincide only after expansion: rejected with or without constants
             (lambda: (lambda k: "switch (var(VZ)) { case %s: x case 77: y case %s: z }" % (k, " ".join(defs[k])))(u())),
             (lambda: (lambda k: "switch (var(VZ)) { case %s: x case %s: z }" % (" ".join(defs[k]), k))(u())),
